@@ -175,7 +175,7 @@ func c01BFSFrom(driver string, cfg c01Cfg, depth, shard, nshards int, faults boo
 			},
 			Key: func(wi interface{}) string {
 				w := wi.(*world)
-				return fmt.Sprintf("%d|%s|%d|%v", vsched.Elapsed(), vh.StoreView(w.pw.Raw, cast.Nodes, cast.Accts), w.pw.Pool.NumRemotes(), w.pw.BStore.Deposits)
+				return fmt.Sprintf("%d|%s|%d|%v|%s", vsched.Elapsed(), vh.StoreView(w.pw.Raw, cast.Nodes, cast.Accts), w.pw.Pool.NumRemotes(), w.pw.BStore.Deposits, vh.StateKey(w.pw.Raw))
 			},
 		})
 	}}
